@@ -243,3 +243,33 @@ package cache
 //@   property C06 C07
 //@   requires cOK(c)
 //@   call TakeWithExpireCtx#0: assert arg_key == key && arg_val == val && arg_query == query
+
+// the cluster dispatches every single-key operation to the node the ring maps THAT key to, with the caller's arguments
+//@ func (cc cacheCluster) GetCtx
+//@   property C06 C15
+//@   flag nolock
+//@   requires cc.dispatcher != nil && hash.hInv(cc.dispatcher)
+//@   ghost at after Get#0: nd = ret0
+//@   call Get#0: assert arg_v == boxed(key) && arg_recv == cc.dispatcher
+//@   call GetCtx#0: assert arg_recv == nd && arg_key == key && arg_val == val && arg_ctx == ctx
+//@ func (cc cacheCluster) SetCtx
+//@   property C06 C15
+//@   flag nolock
+//@   requires cc.dispatcher != nil && hash.hInv(cc.dispatcher)
+//@   ghost at after Get#0: nd = ret0
+//@   call Get#0: assert arg_v == boxed(key) && arg_recv == cc.dispatcher
+//@   call SetCtx#0: assert arg_recv == nd && arg_key == key && arg_val == val && arg_ctx == ctx
+//@ func (cc cacheCluster) TakeCtx
+//@   property C06 C15 C07
+//@   flag nolock
+//@   requires cc.dispatcher != nil && hash.hInv(cc.dispatcher)
+//@   ghost at after Get#0: nd = ret0
+//@   call Get#0: assert arg_v == boxed(key) && arg_recv == cc.dispatcher
+//@   call TakeCtx#0: assert arg_recv == nd && arg_key == key && arg_val == val && arg_query == query && arg_ctx == ctx
+//@ func (cc cacheCluster) TakeWithExpireCtx
+//@   property C06 C15 C07
+//@   flag nolock
+//@   requires cc.dispatcher != nil && hash.hInv(cc.dispatcher)
+//@   ghost at after Get#0: nd = ret0
+//@   call Get#0: assert arg_v == boxed(key) && arg_recv == cc.dispatcher
+//@   call TakeWithExpireCtx#0: assert arg_recv == nd && arg_key == key && arg_val == val && arg_query == query && arg_ctx == ctx
